@@ -170,6 +170,17 @@ Proof.
       destruct (names_eqb _ _); [apply neutral_ret|apply IH].
 Qed.
 
+Lemma neutral_open_reload : forall attempts, neutral (open_reload attempts).
+Proof.
+  induction attempts as [|a IH]; cbn [open_reload].
+  - apply neutral_ret.
+  - apply neutral_op_bind; [exact I|]. intro r.
+    apply neutral_bind; [apply neutral_open_all|]. intros [m|].
+    + apply neutral_ret.
+    + apply neutral_op_bind; [exact I|]. intro r2.
+      destruct (names_eqb _ _); [apply neutral_ret|apply IH].
+Qed.
+
 Lemma neutral_close : forall m, neutral (close m).
 Proof.
   intro m. unfold close. apply neutral_op_bind; [exact I|]. intro c.
@@ -307,7 +318,7 @@ Theorem wp_call_prog : forall attempts o m d,
 Proof.
   intros attempts o m d.
   destruct o; destruct m as [mm|]; cbn [call_prog]; try apply final_mk;
-    try (apply wp_wrap; first [apply wp_add | apply wp_neutral_final; first [apply neutral_reload | apply neutral_close]]).
+    try (apply wp_wrap; first [apply wp_add | apply wp_neutral_final; first [apply neutral_reload | apply neutral_open_reload | apply neutral_close]]).
   - destruct mm; [apply final_mk|]. apply wp_wrap. apply wp_compact_range.
   - destruct mm; [apply final_mk|]. apply wp_wrap. apply wp_compact_range.
 Qed.
